@@ -71,7 +71,7 @@ def _default_summaries(ctx):
 
 def run(ctx):
     for fn in (r1_escape_parse, r2_containment, r3_style_dispatch, r4_collection_continues, r5_variants, r6_directives_checked_at_parse_time,
-               r7_error_constructor_total, r8_line_table_covers_ast_lines, r2b_containment_handler_is_total, r9_lookahead_in_bounds, r10_docstring_locator_indices_in_bounds, r12_parser_handlers_reraise, r11_definite_assignment):
+               r7_error_constructor_total, r8_line_table_covers_ast_lines, r2b_containment_handler_is_total, r9_lookahead_in_bounds, r10_docstring_locator_indices_in_bounds, r12_parser_handlers_reraise, r11_definite_assignment, r13_tokenizer_quote_siblings):
         ctx.rep.rule(fn, ctx)
 
 
@@ -899,6 +899,30 @@ def r11_definite_assignment(ctx):
     definite_assignment(ctx, 'C14.R11', {'xdoctest.parser', 'xdoctest.core', 'xdoctest.static_analysis', 'xdoctest.dynamic_analysis', 'xdoctest.docstr.docscrape_google', 'xdoctest.exceptions'}, 40)
 
 
+def r13_tokenizer_quote_siblings(ctx):
+    """SIBLING-AGREE: the vendored tokenizer (used by is_balanced_statement on every doctest line) describes string literals twice, once per
+    quote character.  The two descriptions must be the same pattern up to the quote: a character class that excludes the backslash for one
+    quote and not for the other makes the second ambiguous -- an unterminated string then backtracks exponentially and a malformed docstring
+    hangs the parser instead of being reported"""
+    rep = ctx.rep
+    mod = ctx.prog.modules.get('xdoctest._tokenize')
+    need(mod is not None, 'C14.R13: the vendored tokenizer module was not found')
+    pats = {}
+    for st in mod.tree.body:
+        if isinstance(st, ast.Assign):
+            for x in ast.walk(st.value):
+                if isinstance(x, ast.Constant) and isinstance(x.value, str) and len(x.value) > 3 and ("'" in x.value or '"' in x.value) and '[' in x.value:
+                    pats.setdefault(x.value, x)
+    rep.floor('C14.R13', 'string-literal patterns of the vendored tokenizer', len(pats), 6)
+    swap = {39: 34, 34: 39}
+    for p_, node in sorted(pats.items()):
+        ok = p_.translate(swap) in pats
+        rep.ob('C14.R13', '%s:%d' % (mod.relpath, node.lineno), repr(p_)[:70], ok,
+               'has its twin for the other quote character' if ok else
+               'this pattern has no twin for the other quote character (the same pattern with the quotes exchanged): the two kinds of string literal are tokenized by different '
+               'expressions; a class that lost its backslash exclusion makes the escape loop ambiguous, and an unterminated string then backtracks exponentially', anchor='xdoctest._tokenize')
+
+
 def r12_parser_handlers_reraise(ctx):
     """MUST-RAISE: below DoctestParser.parse nothing swallows an error of the source under analysis.  Every `except` handler in parser.py (the
     labeller, the statement completer, the statement locator) leaves by `raise` on all of its paths: a handler that completes normally would let
@@ -934,6 +958,7 @@ from ..selftest import fire, silent      # noqa: E402
 PA = 'xdoctest/parser.py'
 CO = 'xdoctest/core.py'
 VARIANTS = [
+    fire('tokenizer-double-quote-class-lost-its-backslash', 'C14.R13', ('xdoctest/_tokenize.py', "                StringPrefix + r'\"[^\\n\"\\\\]*(?:\\\\.[^\\n\"\\\\]*)*' +\n", "                StringPrefix + r'\"[^\\n\"\\\\]*(?:\\\\.[^\\n\"]*)*' +\n")),
     fire('auto-style-never-reraises', 'C14.R3', ('xdoctest/core.py', "        if n_found > 0:\n            raise\n", "        if n_found > 0:\n            pass\n")),
     fire('labeller-swallows-incomplete-statement', 'C14.R12', ('xdoctest/parser.py', "                except exceptions.IncompleteParseError:\n                    raise\n", "                except exceptions.IncompleteParseError:\n                    pass\n")),
     fire('revert-fix-F14-locator-candidate-unchecked', 'C14.R10', ('xdoctest/static_analysis.py', "                if cand_start_ < 0:\n", "                if False:\n")),
